@@ -24,8 +24,18 @@ func c01Check(pg *Prog) func(x *vlab.Exec) []vlab.Violation {
 			if t == nil {
 				continue
 			}
+			in := e.Inst()
+			// a command of a task called from a task-call entry (deferred or not) of T is T's
+			// doing as well: T's deps must have succeeded before it
+			if par, site, ok := vlab.ParentOf(in); ok && len(t.Deps) == 0 {
+				if kind, _, _ := vlab.SiteIndex(site); kind == 'c' {
+					if pt := pg.Task(par.Task); pt != nil && len(pt.Deps) > 0 {
+						t, in = pt, par
+					}
+				}
+			}
 			for k, d := range t.Deps {
-				di := vlab.CalleeInst(e.Inst(), fmt.Sprintf("d%d", k), d)
+				di := vlab.CalleeInst(in, fmt.Sprintf("d%d", k), d)
 				st := pg.Completed(ti, di, e.Pos, 0)
 				if st == vlab.StOK {
 					continue
@@ -98,6 +108,14 @@ func c01Progs() map[string]*Prog {
 		{Name: "a", IgnoreError: true, Deps: []Ref{D("b"), D("c")}, Cmds: []C{P(), P()}},
 		{Name: "b", Cmds: []C{P(), F()}},
 		{Name: "c", Cmds: []C{P()}},
+	}}
+	// deferred commands (and deferred task calls) are commands of the task too
+	m["failing-dep-of-task-with-defers"] = &Prog{Tasks: []*T{
+		{Name: "root", IgnoreError: true, Deps: []Ref{D("a")}, Cmds: []C{P()}},
+		{Name: "a", Deps: []Ref{D("b"), D("c")}, Cmds: []C{{Defer: true}, {Defer: true, Call: &Ref{Task: "x"}}, P()}},
+		{Name: "b", Cmds: []C{P(), F()}},
+		{Name: "c", Cmds: []C{P()}},
+		{Name: "x", Cmds: []C{P()}},
 	}}
 	m["nested-call-in-dep"] = &Prog{Tasks: []*T{
 		{Name: "root", Deps: []Ref{D("a"), D("b")}, Cmds: []C{P()}},
